@@ -98,6 +98,19 @@ def shrink(spec, case, flavour, workdir, budget=150):
     return Case(case.name, case.cls, steps)
 
 
+def profile_scan():
+    hits = []
+    for dirpath, _, files in os.walk(os.path.join(vlib.REPO, "src")):
+        for f in sorted(files):
+            if not f.endswith(".rs"):
+                continue
+            for i, line in enumerate(open(os.path.join(dirpath, f)).read().split("\n")):
+                code = line.split("//")[0]
+                if re.search(r"\bdebug_assert(_eq|_ne)?!|debug_assertions|cfg!?\s*\(\s*(not\s*\(\s*)?(feature|overflow_checks)\b", code):
+                    hits.append("%s:%d: %s" % (os.path.relpath(os.path.join(dirpath, f), vlib.REPO), i + 1, code.strip()[:120]))
+    return hits
+
+
 def run_check(spec, prop, tier, seed, t0):
     rng = random.Random(seed * 7919 + 17)
     workdir = os.path.join(CACHE, "runs", prop)
@@ -112,6 +125,15 @@ def run_check(spec, prop, tier, seed, t0):
     if pre_err:
         rp = write_replay(prop, dict(kind="translator-error", error=pre_err,
                                      broken="the translator could not regenerate the model from /repo's source"))
+        violations.append((rp, "no-failing-input-found"))
+    # ---- build-profile scan: the harness and the probes observe the library under ONE build configuration (release
+    # optimisation with debug assertions and overflow checks on, no cargo features): code that is compiled differently in
+    # another configuration is outside the tie, so its presence is reported rather than ignored
+    hits = profile_scan()
+    if hits:
+        rp = write_replay(prop, dict(kind="profile-dependent-code", sites=hits[:10],
+                                     broken="the library contains code whose behaviour depends on the build profile or on cargo features "
+                                            "(debug_assert!, cfg(debug_assertions), cfg(feature ..)): the correspondence runs one configuration only"))
         violations.append((rp, "no-failing-input-found"))
     # ---- proof stage
     pr = vlib.proof_stage(prop, tier=tier)
@@ -1000,7 +1022,7 @@ class C17(CaseSpec):
         """free-running smoke test: a stall is a deadlock (never a known finding)"""
         res = {}
         for fl in self.flavours:
-            for scen in ("queries", "disconnect", "traversals"):
+            for scen in ("queries", "disconnect", "traversals", "isolate"):
                 try:
                     rc, out = vlib.sh([vlib.HARNESS_BIN, "stress", fl, scen, "1500"], timeout=30)
                 except Exception as e:       # the stress binary itself hung
@@ -1028,8 +1050,29 @@ class C17(CaseSpec):
             return "results and final graph are not those of any sequential order of the calls", False
         return None, False
 
+    def lock_scan(self, prop, violations):
+        """the cooperative scheduler only ever lets a thread through when its lock is FREE, so code that behaves differently
+        under contention (try_read / try_write / try_lock, WouldBlock arms) is dead in every replay: such a call in a sync
+        flavour is outside the micro-step model (every acquisition blocks until granted) — a broken tie, reported"""
+        hits = []
+        for fl in self.flavours:
+            for dirpath, _, files in os.walk(os.path.join(vlib.REPO, "src", fl)):
+                for f in sorted(files):
+                    if f.endswith(".rs"):
+                        for i, line in enumerate(open(os.path.join(dirpath, f)).read().split("\n")):
+                            code = line.split("//")[0]
+                            if re.search(r"\.\s*try_(read|write|lock)\s*\(", code) or "WouldBlock" in code:
+                                hits.append("%s:%d: %s" % (os.path.relpath(os.path.join(dirpath, f), vlib.REPO), i + 1, code.strip()[:120]))
+        if hits:
+            rp = write_replay(prop, dict(kind="non-blocking-lock-acquisition", sites=hits[:10],
+                                         broken="a sync flavour acquires a lock without blocking (try_read / try_write): its behaviour under contention is outside "
+                                                "the micro-step model, whose acquisitions block until granted, and unreachable for the scheduler"))
+            violations.append((rp, "no-failing-input-found"))
+        return hits
+
     def correspondence(self, prop, tier, rng, workdir, pr, violations):
         t1 = time.time()
+        self.lock_scan(prop, violations)
         stress = self.stress(violations, prop)
         corpus = [c for c in load_corpus(prop)]
         scen = []
@@ -1175,6 +1218,21 @@ fn main() {
     let got = m.get(&"x").map(|n| n.value().0).unwrap_or(0);
     let removed = m.remove(&"y").is_some();
     println!("minimal {} {} {} {} {} {} {} {} {}", m.len(), n, refused, found, path, d, got, removed, m.to_vec().len());
+    // a search configured step by step, the target key computed in an inner scope that ends before the search runs:
+    // target() must not tie the key's borrow to the builder in one twin only
+    let scoped = {
+        let mut s1 = a.SCOPED1();
+        let mut s2 = a.dfs();
+        let mut s3 = a.SCOPED3();
+        if g.len() > 1 {
+            let key: u64 = g.len() as u64;
+            s1 = s1.target(&key);
+            s2 = s2.target(&key);
+            s3 = s3.target(&key);
+        }
+        (s1.search_path().map(|p| p.len()), s2.search_path().map(|p| p.len()), s3.search_path().map(|p| p.len()))
+    };
+    println!("scoped {:?}", scoped);
 }
 """
 
@@ -1196,13 +1254,13 @@ class C15(CaseSpec):
             open(os.path.join(d, "Cargo.toml"), "w").write('[package]\nname = "gdsl_c15_%s"\nversion = "0.1.0"\nedition = "2021"\n\n[dependencies]\ngdsl = { path = "%s" }\n\n[workspace]\n' % (fl, vlib.REPO))
             import shutil
             shutil.copy(os.path.join(vlib.REPO, "Cargo.lock"), os.path.join(d, "Cargo.lock"))
-            open(os.path.join(d, "src", "main.rs"), "w").write(TWIN_BODY.replace("FLAVOUR", fl).replace("ITER", it))
+            open(os.path.join(d, "src", "main.rs"), "w").write(TWIN_BODY.replace("FLAVOUR", fl).replace("ITER", it).replace("SCOPED1", "bfs" if fl.endswith("digraph") else "dfs").replace("SCOPED3", "pfs" if fl.endswith("digraph") else "dfs"))
             env = {"RUSTFLAGS": vlib.RUSTFLAGS, "CARGO_NET_OFFLINE": "true", "CARGO_TARGET_DIR": os.path.join(CACHE, "target")}
             rc, out = vlib.sh("cargo run --release --offline 2>&1", cwd=d, env=env, timeout=900)
             if rc != 0:
                 outs[fl] = ("compile-error", [l for l in out.splitlines() if l.startswith("error")][:4])
             else:
-                outs[fl] = ("ok", [l for l in out.splitlines() if l.split(" ")[0] in ("parallel", "same-value-other-endpoints", "reverse", "index", "default", "unitdot", "unitlen", "minimal")])
+                outs[fl] = ("ok", [l for l in out.splitlines() if l.split(" ")[0] in ("parallel", "same-value-other-endpoints", "reverse", "index", "default", "unitdot", "unitlen", "minimal", "scoped")])
         for a, b in (("digraph", "sync_digraph"), ("ungraph", "sync_ungraph")):
             if outs[a] != outs[b]:
                 rp = write_replay(prop, {"kind": "failing-input", "oracle": "the same program behaves differently on %s and %s: %s vs %s" % (a, b, outs[a], outs[b]),
